@@ -45,6 +45,8 @@ def gen_cases(tier, seed):
                     "perturb": r.choice(["none", "instr"]), "max_errors": r.choice([0, 0, None, 2]),
                     "faults": {"count": r.choice([1, 1, 2]), "kinds": r.choice([["exc", "value"], ["base", "sysexit", "genexit", "kbi", "cancel", "falsybase"], ["falsy", "callerr", "base"]])},
                     "cfg": {"out": r.choice(["all", "sinks", "struct", "node"])}})
+    for i in range(3 if tier == "quick" else 12):
+        out.append({"seed": env.seed_for(seed, ID, tier, "longchain", i), "mode": "longchain", "len": [1100, 1500, 2500][i % 3], "W": [1, 2, 8][i % 3], "sched": ["default", "random"][i % 2]})
     out.extend(preempt.gen_descs(tier, seed, ID))  # "the same for every ... timing": deterministic single-preemption enumeration
     out.extend(preempt.gen_descs2(tier, seed, ID, pairs_quick=60))  # and (k1, k2) pairs of two preemptions
     return out
@@ -113,6 +115,35 @@ def compare_args(ir, E, nid, seen):
             if not irmod.struct_eq(got, want):
                 return f"n{nid} keyword {k}: got {irmod.canon(got, ir.opaque_ids)[:200]} expected {irmod.canon(want, ir.opaque_ids)[:200]}"
     return None
+
+
+def run_longchain(desc):
+    """A chain of thousands of calls, each with a single predecessor (deeper than the interpreter's recursion limit): acyclic plans of any
+    depth evaluate like the loop that would compute them directly."""
+    import uberjob
+
+    plan = uberjob.Plan()
+    x = plan.call(int)
+    for _ in range(desc["len"]):
+        x = plan.call(_inc, x)
+    exc = got = None
+    try:
+        got = uberjob.run(plan, output=x, max_workers=desc["W"], scheduler=desc["sched"], progress=None)
+    except BaseException as e:
+        exc = e
+    bad = None
+    if exc is not None:
+        bad = f"run raised {exc!r} (cause {exc.__cause__!r})"
+    elif got != desc["len"]:
+        bad = f"run returned {got!r}; direct evaluation gives {desc['len']}"
+    res = {"status": "ok", "counters": {"runs": 1, "longchain_runs": 1}, "sets": {"features_exercised": ["longchain"]}, "nontrivial": True, "sig": f"longchain|{desc['len']}|{desc['W']}"}
+    if bad:
+        res.update(status="violation", mechanism="value-mismatch", detail=f"[chain of {desc['len']} single-predecessor calls, W={desc['W']}, {desc['sched']}] {bad}")
+    return res
+
+
+def _inc(v):
+    return v + 1
 
 
 def run_mutated(desc):
@@ -205,6 +236,9 @@ def run_wrapped(desc):
     def f4(fn, retry, node=0):
         return ("f4", fn, retry, node)
 
+    def f5(x=0, *, scope="default-scope", plan=None, **rest):
+        return ("f5", x, scope, plan, tuple(rest.items()))
+
     class K:
         def __init__(self, v, exc_type=None):
             self.v = (v, exc_type)
@@ -253,6 +287,8 @@ def run_wrapped(desc):
         (nameless, (4,), {}),
         # callable objects that compare EQUAL (and hash alike) but are distinct and behave differently: 1 == 1.0 == True
         (Const(1), (), {}), (Const(1.0), (), {}), (Const(True), (), {}),
+        # keyword names that the library uses for its own options elsewhere
+        (f5, (1,), {"scope": ("s", 1)}), (deco(f5), (), {"scope": None, "plan": 2, "output": 3, "registry": 4, "max_workers": 5}),
     ]
     rng.shuffle(calls)
     calls = calls[: rng.randint(4, len(calls))]
@@ -295,6 +331,8 @@ def run_case(desc):
         return run_mutated(desc)
     if desc.get("mode") == "raising":
         return run_raising(desc)
+    if desc.get("mode") == "longchain":
+        return run_longchain(desc)
     if desc.get("mode") == "preempt1":
         r_ = preempt.enumerate_case(desc, preempt_oracle)
         r_.setdefault("sets", {})["features_exercised"] = ["preempt1"]
